@@ -1,2 +1,4 @@
 import LhasaV.Props.C17
 import LhasaV.Props.C11
+import LhasaV.Props.C09
+import LhasaV.Props.C14
